@@ -38,7 +38,7 @@ theorem lower_satAdd (t : WTy) (lk rk : Bool) (a b : Int) (x y : CVal)
   obtain ⟨hxv, hxr, _, _⟩ := hx
   obtain ⟨hyv, hyr, _, _⟩ := hy
   subst hxv hyv
-  refine ⟨.satAdd t (.hole 0) (.hole 1), _, rfl, ?_, rfl, rfl⟩
+  refine ⟨.satAdd t (.hole 0) (.hole 1), ⟨ctyOf t, WOp.satAdd.ideal t x.v y.v⟩, rfl, ?_, rfl, rfl⟩
   simp only [ceval, env2]
   exact satAddC_spec t x y hxr.1 hxr.2 hyr.1 hyr.2
 
@@ -49,7 +49,7 @@ theorem lower_satSub (t : WTy) (lk rk : Bool) (a b : Int) (x y : CVal)
   obtain ⟨hxv, hxr, _, _⟩ := hx
   obtain ⟨hyv, hyr, _, _⟩ := hy
   subst hxv hyv
-  refine ⟨.satSub t (.hole 0) (.hole 1), _, rfl, ?_, rfl, rfl⟩
+  refine ⟨.satSub t (.hole 0) (.hole 1), ⟨ctyOf t, WOp.satSub.ideal t x.v y.v⟩, rfl, ?_, rfl, rfl⟩
   simp only [ceval, env2]
   exact satSubC_spec t x y hxr.1 hxr.2 hyr.1 hyr.2
 
@@ -176,7 +176,7 @@ theorem iand_mod (a : Int) (n : Nat) (h0 : 0 ≤ a) : iand a (2 ^ n - 1) = a % 2
   show ((a.toNat &&& ((2:Int) ^ n - 1).toNat : Nat) : Int) = a % 2 ^ n
   rw [hn, Nat.and_two_pow_sub_one_eq_mod]
   have hc : ((2 ^ n : Nat) : Int) = (2:Int) ^ n := by norm_cast
-  rw [Int.natCast_mod, Int.toNat_of_nonneg h0, hc]
+  rw [Int.natCast_emod, Int.toNat_of_nonneg h0, hc]
 
 theorem iand_comm (a b : Int) : iand a b = iand b a := by
   show ((a.toNat &&& b.toNat : Nat) : Int) = ((b.toNat &&& a.toNat : Nat) : Int)
